@@ -32,4 +32,16 @@ META["C14"] = {
     "text": "Bounded symbolic model checking of script inspection: every inspection query on every byte string up to L bytes, on arbitrary 22..26-byte strings (non-tokenising queries), and on each standard template with symbolic keys/hashes (reported as its type) and with one byte overwritten by a symbolic byte / one byte removed / a zero-length push inserted at every position (no fault; P2PKH and data classification equal the reference predicates; undecodable scripts never key-bearing).",
     "note": "Trusted: gosym, z3. In the mutation cases template payload bytes are a fixed tokeniser-relevant pattern and only the mutated byte is symbolic (stated cut); Addresses()/ToASM rendering are exercised under C15/C13.",
 }
+META["C10"] = {
+    "text": "Bounded symbolic model checking in integer-arithmetic mode: Change / ChangeToExistingOutput executed for real (including EstimateSizeWithTypes = clone + serialise) on concrete shapes (1..IN P2PKH-funded inputs, 0/1/2/252 outputs incl. data outputs, change scripts of lengths 1,2,24,25,26(,252,253)), with every amount and fee-rate numerator symbolic; the four clauses of the statement are asserted against a reference fee of the specified final size.",
+    "note": "Trusted: gosym incl. its Int encoding of 64-bit arithmetic (wrap-around explicit unless an interval analysis shows no overflow), z3 NIA/LIA. Quick tier fixes fee denominators to {1,3,1000}; thorough makes them symbolic in 1..1000. Amounts <= 21e14, rate numerators <= 1e6. ChangeToAddress = NewP2PKHFromAddress (C15) + Change.",
+}
+META["C11"] = {
+    "text": "Bounded symbolic model checking in integer-arithmetic mode: size breakdown, fee formula and sufficiency predicates on transactions with arbitrary short output scripts (data-carrier or not is decided by the solver), and estimation on P2PKH-funded transactions (error clauses; estimate >= size after inputs receive unlocking scripts of the size the library's signer produces, <= 107 bytes).",
+    "note": "Trusted: gosym (Int mode), z3. The 107-byte bound on library-made P2PKH unlocking scripts is the signer contract (DER low-S signature <= 71 bytes + hash type, 33-byte key), not re-derived here.",
+}
+META["C12"] = {
+    "text": "Bounded symbolic model checking in integer-arithmetic mode: Tx.Fund with a supplier closure whose behaviour on each of up to CALLS calls is chosen by the solver (exhausted / error / empty batch / 1..2 UTXOs with symbolic fields); every clause of the statement is asserted against ghost state kept by the closure.",
+    "note": "Trusted: gosym (Int mode, closures), z3. Supplier histories longer than CALLS calls are outside the claim.",
+}
 NOT_APPLICABLE = {}
